@@ -1176,3 +1176,8 @@ B('TM-int-by-equality', ['C07', 'C16'], 'util.py', 'prepare_iter_for_array',
   'elif issubclass(value_type, INT_TYPES) and value_type not in BOOL_TYPES and abs(v)', 'elif value_type in INT_TYPES and abs(v)', 'I.type-membership-by-subclass', 'prepare_iter_for_array')
 N('TM-isinstance-form', ['C07', 'C16'], 'util.py', 'prepare_iter_for_array',
   '                if issubclass(value_type, INEXACT_TYPES): # np.float64 is not equal to, but a subclass of, float and np.inexact', '                if isinstance(v, INEXACT_TYPES):')
+
+B('F3-big-int-positive-only', ['C07', 'C16', 'C03'], 'util.py', 'prepare_iter_for_array',
+  'value_type not in BOOL_TYPES and abs(v) > INT_MAX_COERCIBLE_TO_FLOAT', 'value_type not in BOOL_TYPES and v > INT_MAX_COERCIBLE_TO_FLOAT', 'F3', 'prepare_iter_for_array')
+N('F3-big-int-two-comparisons', ['C07', 'C16', 'C03'], 'util.py', 'prepare_iter_for_array',
+  'value_type not in BOOL_TYPES and abs(v) > INT_MAX_COERCIBLE_TO_FLOAT', 'value_type not in BOOL_TYPES and (v > INT_MAX_COERCIBLE_TO_FLOAT or v < -INT_MAX_COERCIBLE_TO_FLOAT)')
